@@ -14,7 +14,7 @@
 From Coq Require Import ZArith List Bool.
 Import ListNotations.
 From Urwid Require Import PyBase geo_padfill_gen Geometry GeometryFacts GeometryProofs GeometryMoveProofs GeometryMoveFull.
-From Urwid Require GeometryX GeometryXProofs.
+From Urwid Require GeometryX GeometryXProofs GeometryXMove.
 From Urwid Require layout_gen Layout LayoutArith LayoutColumns GeometryLayoutTie.
 Open Scope Z_scope.
 
@@ -294,7 +294,7 @@ Proof. vm_compute. reflexivity. Qed.
 (* widget packs to, which is its canvas size when it is rendered fixed).                         *)
 (* ------------------------------------------------------------------------------------------ *)
 Module X.
-Import GeometryX GeometryXProofs.
+Import GeometryX GeometryXProofs GeometryXMove.
 
 (* the bridge: on a tree without fixed parts the extended view IS the proved view, so every theorem above
    speaks about the extended model too (before this round the agreement was only tested in [run_case]) *)
@@ -370,6 +370,27 @@ Theorem move_cursor_iff_child_x :
     = m_asked (v_move (nth_view w (map fst (xkids w)) (p_idx p)) (p_size p) (col - p_x p) (row - p_y p)).
 Proof. exact xmove_iff_child. Qed.
 Print Assumptions move_cursor_iff_child_x.
+
+(* clause 3, whole tree, EVERY tree of the extended model and every size including (): after a successful
+   move_cursor_to_coords that went down to a leaf the tree still fits and the reported cursor is on the requested row.
+   Structural induction (Proofs/GeometryXMove.v): a move changes focus positions and leaf cursors only, so sizing()
+   and the packed width of every widget stay; the rows() / packed height a container reads of the child it asked are
+   the ones at the size it renders that child with; Columns.column_widths with 'pack' columns does not depend on the
+   focus when the static needs fit. *)
+Theorem cursor_on_requested_row_x :
+  forall w s col row,
+    v_fits (fst (xview w)) s = true -> i_hasmove (v_info (fst (xview w))) = true ->
+    let m := v_move (fst (xview w)) s col row in
+    m_ok m = true -> m_asked m <> None ->
+    v_fits (fst (xview (m_w m))) s = true /\ exists x, v_cursor (fst (xview (m_w m))) s = CSome x row.
+Proof. exact xcursor_on_requested_row. Qed.
+Print Assumptions cursor_on_requested_row_x.
+
+(* what a move leaves unchanged *)
+Theorem move_keeps_shape :
+  forall w s col row, same_shape w (m_w (move_cursor w s col row)).
+Proof. exact move_same_shape. Qed.
+Print Assumptions move_keeps_shape.
 
 (* non-vacuity at size (): a Pile rendered fixed of a Columns with a 'pack' column around a fixed leaf and a
    given column with a cursor leaf, and a Padding width 'pack' around a fixed leaf *)
